@@ -993,9 +993,8 @@ def run(ctx):
         proved = set(info.get("proved", []))
         ctx.extra["wf_env"] = info.get("wf")
         ctx.extra["types_total"] = len(names)
-        ctx.extra["types_in_proved_fragment"] = len(proved)
-        ctx.extra["codec_roundtrip_partial__types_covered_by_correspondence_only"] = [
-            names[i] for i in range(len(names)) if i not in proved]
+        ctx.extra["types_covered_by_codec_roundtrip"] = len(proved)
+        ctx.extra["types_not_covered_by_the_theorem"] = [names[i] for i in range(len(names)) if i not in proved]
         if info.get("bad"):
             ctx.extra["types_violating_wf"] = [names[i] for i in info["bad"] if i < len(names)]
     run_corpus(ctx, drv)
